@@ -8,6 +8,8 @@
 //!   peel ss=<hex32> ad=<hex32|-> data=<hex> hmac=<hex32>
 //!   keys sess=<hex32> hops=<seed:scid>,..
 //!   fail sess=<hex32> hops=<seed:scid>,.. at=<i> code=<u16> data=<hex> holds=<t0,..,ti> tstep=<k|0>
+//!   failb sess=<hex32> hops=<seed:scid>,.. at=<i> code=<u16> plen=<n> legacy=<0|1> holds=<t0,..,ti>
+//!   rcpt ..  (see do_rcpt)
 //!   fulfill sess=<hex32> hops=<seed:scid>,.. holds=<t0,..>
 use std::collections::HashMap;
 
@@ -16,7 +18,18 @@ use bitcoin::hashes::sha256::Hash as Sha256;
 use bitcoin::hashes::{Hash, HashEngine};
 use bitcoin::secp256k1::{PublicKey, Secp256k1, SecretKey};
 
-use lightning::ln::channelmanager::PendingHTLCRouting;
+use lightning::blinded_path::payment::{
+	BlindedPaymentPath, Bolt12RefundContext, ForwardTlvs, PaymentConstraints, PaymentContext,
+	PaymentForwardNode, PaymentRelay, ReceiveTlvs,
+};
+use lightning::ln::channelmanager::{PaymentId, PendingHTLCRouting};
+use lightning::ln::inbound_payment::ExpandedKey;
+use lightning::offers::invoice_request::InvoiceRequest;
+use lightning::offers::nonce::Nonce;
+use lightning::offers::offer::OfferBuilder;
+use lightning::routing::router::BlindedTail;
+use lightning::types::features::BlindedHopFeatures;
+use lightning::util::ser::Writeable;
 use lightning::ln::msgs::{OnionPacket, UpdateAddHTLC};
 use lightning::ln::onion_payment::peel_payment_onion;
 use lightning::ln::onion_utils::verif_hooks_onion as vh;
@@ -246,7 +259,7 @@ fn do_pay(a: &HashMap<String, String>) -> String {
 			judge.push(js("construct_onion_keys disagrees with construct_onion_keys_generic"));
 		}
 	}
-	let payloads = vh::payment_payloads(&path, &rof, height, &keysend);
+	let payloads = vh::payment_payloads(&path, &rof, height, &keysend, None);
 	let (payloads_json, payload_total) = match &payloads {
 		Ok((p, _, _)) => (
 			jlist(&p.iter().map(|x| js(&hex(x))).collect::<Vec<_>>()),
@@ -449,6 +462,387 @@ fn do_pay(a: &HashMap<String, String>) -> String {
 		htlc_cltv,
 		jlist(&peels),
 		jlist(&tamper_json),
+		jlist(&judge)
+	)
+}
+
+/// BigSize at the start of `b`: (value, bytes used).
+fn read_bigsize(b: &[u8]) -> Option<(u64, usize)> {
+	match *b.first()? {
+		0xff => Some((u64::from_be_bytes(b.get(1..9)?.try_into().ok()?), 9)),
+		0xfe => Some((u32::from_be_bytes(b.get(1..5)?.try_into().ok()?) as u64, 5)),
+		0xfd => Some((u16::from_be_bytes(b.get(1..3)?.try_into().ok()?) as u64, 3)),
+		x => Some((x as u64, 1)),
+	}
+}
+
+/// The TLV records of a payload (without its length prefix), independent of LDK's decoder.
+fn tlv_records(mut b: &[u8]) -> Option<Vec<(u64, Vec<u8>)>> {
+	let mut out = Vec::new();
+	while !b.is_empty() {
+		let (t, n) = read_bigsize(b)?;
+		b = &b[n..];
+		let (l, n) = read_bigsize(b)?;
+		b = &b[n..];
+		let v = b.get(..l as usize)?.to_vec();
+		b = &b[l as usize..];
+		out.push((t, v));
+	}
+	Some(out)
+}
+
+fn test_invoice_request(sess: &[u8; 32]) -> InvoiceRequest {
+	let secp = Secp256k1::new();
+	let km = KeysManager::new(sess, 7, 7, true);
+	let signing = km.get_node_id(Recipient::Node).unwrap();
+	let offer = OfferBuilder::new(signing).amount_msats(1000).build().unwrap();
+	let expanded_key = ExpandedKey::new([42; 32]);
+	let nonce = Nonce::from_entropy_source(&km);
+	offer
+		.request_invoice(&expanded_key, nonce, &secp, PaymentId([1; 32]))
+		.unwrap()
+		.build_and_sign()
+		.unwrap()
+}
+
+/// `rcpt sess= prng= hash= height= hops=<seed:scid:fee:cltv>,.. blinded=<k> secret=<hex32|-> bsecret=<hex32> total=
+///       meta=<hex|-> tlvs=<type:hex;..|-> keysend=<hex32|-> invreq=<0|1>`
+/// The last `k` nodes form a blinded path created by the recipient (k = 1: the recipient is its own
+/// introduction node).  Every hop peels with the real code; the final hop must decode exactly what was sent.
+fn do_rcpt(a: &HashMap<String, String>) -> String {
+	let secp = Secp256k1::new();
+	let logger = NoLog;
+	let sess = SecretKey::from_slice(&arr32(&a["sess"])).unwrap();
+	let prng = arr32(&a["prng"]);
+	let hash = PaymentHash(arr32(&a["hash"]));
+	let height: u32 = a["height"].parse().unwrap();
+	let k: usize = a["blinded"].parse().unwrap();
+	let mut nodes = Vec::new();
+	let (mut scid, mut fee, mut cltv) = (Vec::new(), Vec::new(), Vec::new());
+	for h in a["hops"].split(',') {
+		let p: Vec<&str> = h.split(':').collect();
+		nodes.push(node(p[0]));
+		scid.push(p[1].parse::<u64>().unwrap());
+		fee.push(p[2].parse::<u64>().unwrap());
+		cltv.push(p[3].parse::<u32>().unwrap());
+	}
+	let n = nodes.len();
+	let final_value = fee[n - 1];
+	let total: u64 = a["total"].parse().unwrap();
+	let bsecret = PaymentSecret(arr32(&a["bsecret"]));
+	let mut judge: Vec<String> = Vec::new();
+	let mut enc_tlvs_json = Vec::new();
+	let mut bp_json = "null".to_string();
+	// the route
+	let mut hops = Vec::new();
+	let mut tail = None;
+	if k == 0 {
+		for i in 0..n {
+			hops.push(route_hop(&nodes[i], scid[i], fee[i], cltv[i]));
+		}
+	} else {
+		let recipient = &nodes[n - 1];
+		let constraints = PaymentConstraints { max_cltv_expiry: u32::MAX, htlc_minimum_msat: 1 };
+		let payee_tlvs = ReceiveTlvs {
+			payment_secret: bsecret,
+			payment_constraints: constraints,
+			payment_context: PaymentContext::Bolt12Refund(Bolt12RefundContext { payment_metadata: None }),
+		};
+		let intermediates: Vec<PaymentForwardNode> = (n - k..n - 1)
+			.map(|j| PaymentForwardNode {
+				tlvs: ForwardTlvs {
+					short_channel_id: scid[j + 1],
+					payment_relay: PaymentRelay {
+						cltv_expiry_delta: cltv[j] as u16,
+						fee_proportional_millionths: 0,
+						fee_base_msat: fee[j] as u32,
+					},
+					payment_constraints: constraints,
+					features: BlindedHopFeatures::empty(),
+					next_blinding_override: None,
+				},
+				node_id: nodes[j].id,
+				htlc_maximum_msat: 2_000_000_000_000_000,
+			})
+			.collect();
+		let auth = recipient.km.get_receive_auth_key();
+		let bpath = if k == 1 {
+			BlindedPaymentPath::one_hop(recipient.id, auth, payee_tlvs, cltv[n - 1] as u16, &recipient.km, &secp)
+		} else {
+			BlindedPaymentPath::new(
+				&intermediates,
+				recipient.id,
+				auth,
+				payee_tlvs,
+				2_000_000_000_000_000,
+				cltv[n - 1] as u16,
+				&recipient.km,
+				&secp,
+			)
+		};
+		let bpath = match bpath {
+			Ok(b) => b,
+			Err(()) => return "{\"kind\":\"rcpt\",\"built\":false,\"why\":\"blinded path refused\",\"judge\":[]}".to_string(),
+		};
+		for i in 0..n - k {
+			hops.push(route_hop(&nodes[i], scid[i], fee[i], cltv[i]));
+		}
+		hops.push(route_hop(
+			&nodes[n - k],
+			scid[n - k],
+			bpath.payinfo.fee_base_msat as u64,
+			bpath.payinfo.cltv_expiry_delta as u32,
+		));
+		for h in bpath.blinded_hops() {
+			enc_tlvs_json.push(js(&hex(&h.encrypted_payload)));
+		}
+		bp_json = js(&hex(&bpath.blinding_point().serialize()));
+		tail = Some(BlindedTail {
+			trampoline_hops: vec![],
+			hops: bpath.blinded_hops().to_vec(),
+			blinding_point: bpath.blinding_point(),
+			excess_final_cltv_expiry_delta: 0,
+			final_value_msat: final_value,
+		});
+	}
+	let path = Path { hops: hops.clone(), blinded_tail: tail };
+	let mut rof = match a["secret"].as_str() {
+		"-" => RecipientOnionFields::spontaneous_empty(total),
+		s => RecipientOnionFields::secret_only(PaymentSecret(arr32(s)), total),
+	};
+	rof.payment_metadata = opt_hex(&a["meta"]);
+	let mut sent_custom: Vec<(u64, Vec<u8>)> = Vec::new();
+	if a["tlvs"] != "-" {
+		let tlvs: Vec<(u64, Vec<u8>)> = a["tlvs"]
+			.split(';')
+			.map(|t| {
+				let (ty, v) = t.split_once(':').unwrap();
+				(ty.parse().unwrap(), unhex(v))
+			})
+			.collect();
+		match RecipientCustomTlvs::new(tlvs) {
+			Ok(t) => {
+				sent_custom = t.as_slice().to_vec();
+				rof = rof.with_custom_tlvs(t)
+			},
+			Err(()) => return "{\"kind\":\"rcpt\",\"built\":false,\"why\":\"custom tlvs refused\",\"judge\":[]}".to_string(),
+		}
+	}
+	let keysend = if a["keysend"] == "-" { None } else { Some(PaymentPreimage(arr32(&a["keysend"]))) };
+	let invreq = if a["invreq"] == "1" { Some(test_invoice_request(&arr32(&a["sess"]))) } else { None };
+	let invreq_bytes = invreq.as_ref().map(|r| r.encode());
+
+	let (keys, _) = vh::hop_keys(&secp, &path, &sess);
+	let keys_json: Vec<String> = keys
+		.iter()
+		.map(|kk| format!("{{\"ss\":{},\"eph\":{}}}", js(&hex(&kk.shared_secret)), js(&hex(&kk.ephemeral_pubkey.serialize()))))
+		.collect();
+	let payloads = vh::payment_payloads(&path, &rof, height, &keysend, invreq.as_ref());
+	let (payloads_json, payload_total) = match &payloads {
+		Ok((p, _, _)) => {
+			(jlist(&p.iter().map(|x| js(&hex(x))).collect::<Vec<_>>()), p.iter().map(|x| x.len() + 32).sum::<usize>())
+		},
+		Err(_) => ("null".to_string(), 0),
+	};
+	let extra = format!("\"enc_tlvs\":{},\"bp\":{},\"invreq\":{}", jlist(&enc_tlvs_json), bp_json, jopt(&invreq_bytes));
+	let onion = create_payment_onion(&secp, &path, &sess, &rof, height, &hash, &keysend, invreq.as_ref(), prng);
+	let (packet, htlc_msat, htlc_cltv) = match onion {
+		Ok(x) => x,
+		Err(e) => {
+			let legit = payloads.is_err() || payload_total > 1300 || (k > 0 && rof.payment_metadata.is_some());
+			if !legit {
+				judge.push(js("create_payment_onion failed although the route and the recipient fields are admissible"));
+			}
+			return format!(
+				"{{\"kind\":\"rcpt\",\"built\":false,\"why\":{},\"keys\":{},\"payloads\":{},\"payload_total\":{},{},\"judge\":{}}}",
+				js(&format!("{:?}", e).replace('"', "'")),
+				jlist(&keys_json),
+				payloads_json,
+				payload_total,
+				extra,
+				jlist(&judge)
+			);
+		},
+	};
+	if payload_total > 1300 || (k > 0 && rof.payment_metadata.is_some()) {
+		judge.push(js("create_payment_onion succeeded on an inadmissible input"));
+	}
+	let payloads = payloads.unwrap().0;
+	// every payload is a strictly ascending TLV stream; the final one carries exactly what was sent
+	for (i, p) in payloads.iter().enumerate() {
+		let content = read_bigsize(p).map(|(_, used)| &p[used..]);
+		match content.and_then(tlv_records) {
+			None => judge.push(format!("\"payload {} is not a TLV stream\"", i)),
+			Some(recs) => {
+				if !recs.windows(2).all(|w| w[0].0 < w[1].0) {
+					judge.push(format!(
+						"\"payload {} is not strictly ascending: types {:?}\"",
+						i,
+						recs.iter().map(|r| r.0).collect::<Vec<_>>()
+					));
+				}
+				if i + 1 == payloads.len() {
+					let mut want: Vec<(u64, Vec<u8>)> = sent_custom.clone();
+					if let Some(pre) = &keysend {
+						want.push((5482373484, pre.0.to_vec()));
+					}
+					if let (Some(b), true) = (&invreq_bytes, k > 0) {
+						want.push((77_777, b.clone()));
+					}
+					want.sort_by_key(|t| t.0);
+					let got: Vec<(u64, Vec<u8>)> = recs.iter().filter(|r| r.0 >= 1 << 16).cloned().collect();
+					if got != want {
+						judge.push(js("the final payload's custom / keysend / invoice-request records are not those sent"));
+					}
+				}
+			},
+		}
+	}
+	// walk the route
+	let m = keys.len();
+	let mut msg = update_add(htlc_msat, htlc_cltv, hash, packet.clone());
+	let mut peels = Vec::new();
+	let mut final_kind = "none".to_string();
+	for i in 0..m {
+		let in_amt = msg.amount_msat;
+		let in_cltv = msg.cltv_expiry;
+		let raw = vh::decode_next_hop_raw(
+			keys[i].shared_secret,
+			&msg.onion_routing_packet.hop_data,
+			msg.onion_routing_packet.hmac,
+			Some(hash.0),
+		);
+		let raw_json = match &raw {
+			Ok((p, None)) => format!("{{\"payload\":{},\"next\":null}}", js(&hex(p))),
+			Ok((p, Some((h, d)))) => {
+				format!("{{\"payload\":{},\"next\":{}}}", js(&hex(p)), js(&format!("{}:{}", hex(d), hex(h))))
+			},
+			Err(e) => format!("{{\"err\":{}}}", js(e)),
+		};
+		let res = peel_payment_onion(&msg, &nodes[i].km, &logger, &secp, height, false);
+		let info = match res {
+			Err(e) => {
+				judge.push(format!("\"hop {} rejected the authentic packet: {:?} {}\"", i, e.reason, e.msg));
+				peels.push(format!("{{\"hop\":{},\"raw\":{},\"err\":{}}}", i, raw_json, js(&format!("{:?}", e.reason))));
+				break;
+			},
+			Ok(info) => info,
+		};
+		let blinded_hop = k > 0 && i >= n - k;
+		let (want_amt, want_cltv) = if i + 1 == m {
+			(final_value, if k > 0 { height } else { height + cltv[n - 1] })
+		} else if blinded_hop {
+			(in_amt - fee[i], in_cltv - cltv[i])
+		} else {
+			(
+				path.hops[i + 1..].iter().map(|h| h.fee_msat).sum::<u64>() + if k > 0 { final_value } else { 0 },
+				height + path.hops[i + 1..].iter().map(|h| h.cltv_expiry_delta).sum::<u32>(),
+			)
+		};
+		if info.outgoing_amt_msat != want_amt {
+			judge.push(format!("\"hop {} got amount {} instead of {}\"", i, info.outgoing_amt_msat, want_amt));
+		}
+		if info.outgoing_cltv_value != want_cltv {
+			judge.push(format!("\"hop {} got cltv {} instead of {}\"", i, info.outgoing_cltv_value, want_cltv));
+		}
+		match info.routing {
+			PendingHTLCRouting::Forward { onion_packet, short_channel_id, blinded, .. } => {
+				if i + 1 >= m {
+					judge.push(js("last hop was told to forward"));
+					break;
+				}
+				if short_channel_id != scid[i + 1] {
+					judge.push(format!("\"hop {} got scid {} instead of {}\"", i, short_channel_id, scid[i + 1]));
+				}
+				if blinded.is_some() != blinded_hop {
+					judge.push(format!("\"hop {}: blinded forward flag is {}\"", i, blinded.is_some()));
+				}
+				if onion_packet.public_key != Ok(keys[i + 1].ephemeral_pubkey) {
+					judge.push(format!("\"hop {} computed a next ephemeral key the sender did not\"", i));
+				}
+				if onion_packet.hop_data.len() != 1300 {
+					judge.push(js("packet size changed in flight"));
+				}
+				if let Ok((_, Some((h, d)))) = &raw {
+					if h[..] != onion_packet.hmac[..] || d[..] != onion_packet.hop_data[..] {
+						judge.push(format!("\"hop {}: peel_payment_onion and decode_next_hop produce different next packets\"", i));
+					}
+				}
+				peels.push(format!("{{\"hop\":{},\"raw\":{},\"fwd\":{{\"scid\":{},\"amt\":{},\"cltv\":{}}}}}", i, raw_json, short_channel_id, info.outgoing_amt_msat, info.outgoing_cltv_value));
+				let next_bp = blinded.and_then(|b| {
+					b.next_blinding_override.or_else(|| {
+						let ss = nodes[i].km.ecdh(Recipient::Node, &b.inbound_blinding_point, None).unwrap().secret_bytes();
+						vh::next_pubkey(&secp, b.inbound_blinding_point, &ss).ok()
+					})
+				});
+				msg = update_add(info.outgoing_amt_msat, info.outgoing_cltv_value, hash, onion_packet);
+				msg.blinding_point = next_bp;
+			},
+			PendingHTLCRouting::Receive { payment_data, payment_metadata, custom_tlvs, payment_context, .. } => {
+				final_kind = if k > 0 { "blinded_recv" } else { "recv" }.to_string();
+				if i + 1 != m {
+					judge.push(format!("\"hop {} believed to be final\"", i));
+				}
+				if keysend.is_some() {
+					judge.push(js("keysend preimage was lost"));
+				}
+				let want_secret = if k > 0 { Some(bsecret) } else { rof.payment_secret };
+				if Some(payment_data.payment_secret) != want_secret || payment_data.total_msat != total {
+					judge.push(js("final hop got a different payment secret / total"));
+				}
+				if payment_metadata != rof.payment_metadata {
+					judge.push(js("final hop got different payment metadata"));
+				}
+				if custom_tlvs != sent_custom {
+					judge.push(js("final hop got different custom TLVs"));
+				}
+				if payment_context.is_some() != (k > 0) {
+					judge.push(js("payment context presence is wrong"));
+				}
+				peels.push(format!("{{\"hop\":{},\"raw\":{},\"recv\":{{\"amt\":{},\"cltv\":{}}}}}", i, raw_json, info.outgoing_amt_msat, info.outgoing_cltv_value));
+				break;
+			},
+			PendingHTLCRouting::ReceiveKeysend { payment_data, payment_preimage, payment_metadata, custom_tlvs, invoice_request, .. } => {
+				final_kind = if k > 0 { "blinded_keysend" } else { "keysend" }.to_string();
+				if i + 1 != m {
+					judge.push(format!("\"hop {} believed to be final\"", i));
+				}
+				if Some(payment_preimage) != keysend {
+					judge.push(js("final hop got a different keysend preimage"));
+				}
+				let want_secret = if k > 0 { Some(bsecret) } else { rof.payment_secret };
+				if payment_data.as_ref().map(|d| d.payment_secret) != want_secret {
+					judge.push(js("final hop got a different payment secret"));
+				}
+				if payment_metadata != rof.payment_metadata || custom_tlvs != sent_custom {
+					judge.push(js("final hop got different metadata / custom TLVs"));
+				}
+				if k > 0 && invoice_request.as_ref().map(|r| r.encode()) != invreq_bytes {
+					judge.push(js("final hop got a different invoice request"));
+				}
+				peels.push(format!("{{\"hop\":{},\"raw\":{},\"keysend\":{{\"amt\":{},\"cltv\":{}}}}}", i, raw_json, info.outgoing_amt_msat, info.outgoing_cltv_value));
+				break;
+			},
+			_ => {
+				judge.push(format!("\"hop {} got an unexpected routing kind\"", i));
+				break;
+			},
+		}
+	}
+	if peels.len() != m {
+		judge.push(js("the route was not walked to its end"));
+	}
+	format!(
+		"{{\"kind\":\"rcpt\",\"built\":true,\"final\":{},\"keys\":{},\"payloads\":{},\"payload_total\":{},\"packet\":{},\"htlc_msat\":{},\"htlc_cltv\":{},\"peels\":{},{},\"judge\":{}}}",
+		js(&final_kind),
+		jlist(&keys_json),
+		jlist(&payloads.iter().map(|x| js(&hex(x))).collect::<Vec<_>>()),
+		payload_total,
+		js(&format!("{}:{}", hex(&packet.hop_data), hex(&packet.hmac))),
+		htlc_msat,
+		htlc_cltv,
+		jlist(&peels),
+		extra,
 		jlist(&judge)
 	)
 }
@@ -688,6 +1082,112 @@ fn do_fail(a: &HashMap<String, String>) -> String {
 	)
 }
 
+/// `failb sess= hops=<seed:scid>,.. at=<i> code=<u16> plen=<packet data length> legacy=<0|1> holds=<t0,..,ti>`
+/// A failure whose packet data has exactly `plen` bytes (failure data of `plen - 38` bytes), built at hop `at`
+/// (legacy = 1: as a node without attribution support would, i.e. the attribution data is stripped before the
+/// first relay), relayed by the real `process_failure_packet` path through hops `at-1 .. 0`.  Reports, per stage,
+/// the data length, whether attribution data is present and the real wire length of the `update_fail_htlc`.
+fn do_failb(a: &HashMap<String, String>) -> String {
+	let secp = Secp256k1::new();
+	let sess = SecretKey::from_slice(&arr32(&a["sess"])).unwrap();
+	let (_nodes, path) = parse_path(a);
+	let at: usize = a["at"].parse().unwrap();
+	let code: u16 = a["code"].parse().unwrap();
+	let plen: usize = a["plen"].parse().unwrap();
+	let legacy = a["legacy"] == "1";
+	let holds: Vec<u32> = a["holds"].split(',').map(|x| x.parse().unwrap()).collect();
+	let (keys, _) = vh::hop_keys(&secp, &path, &sess);
+	let mut judge: Vec<String> = Vec::new();
+	let data: Vec<u8> = (0..plen - 38).map(|i| (i * 7 + 3) as u8).collect();
+	let (mut d, mut at_data) = if legacy {
+		// what a node without attribution support sends (BOLT 4): hmac | len | code | data | padlen | pad, encrypted
+		let mut body = Vec::new();
+		body.extend_from_slice(&((2 + data.len()) as u16).to_be_bytes());
+		body.extend_from_slice(&code.to_be_bytes());
+		body.extend_from_slice(&data);
+		let pad = 256usize.saturating_sub(2 + data.len());
+		body.extend_from_slice(&(pad as u16).to_be_bytes());
+		body.extend(std::iter::repeat(0u8).take(pad));
+		let mut h = HmacEngine::<Sha256>::new(&keys[at].um);
+		h.input(&body);
+		let mut plain = Hmac::from_engine(h).to_byte_array().to_vec();
+		plain.extend_from_slice(&body);
+		let stream = vh::init_noise(keys[at].ammag, plain.len());
+		(plain.iter().zip(stream.iter()).map(|(x, y)| x ^ y).collect::<Vec<u8>>(), None)
+	} else {
+		let ss = keys[at].shared_secret;
+		let (dd, hh) = (data.clone(), holds[at]);
+		match std::panic::catch_unwind(move || vh::build_failure(&ss, code, &dd, hh)) {
+			Ok(r) => r,
+			Err(_) => {
+				// the builder's debug assertion: legitimate exactly when the message would not fit
+				if plen + 2 + 42 + 924 <= 65535 {
+					judge.push(js("the failure builder panicked on a failure that fits into update_fail_htlc"));
+				}
+				return format!("{{\"kind\":\"failb\",\"built\":false,\"stages\":[],\"judge\":{}}}", jlist(&judge));
+			},
+		}
+	};
+	if d.len() != plen {
+		judge.push(format!("\"built packet has {} bytes instead of {}\"", d.len(), plen));
+	}
+	let mut stages = Vec::new();
+	// type (2) + channel_id (32) + htlc_id (8) + u16 length prefix + reason + TLV 1 (type, BigSize length 920, value)
+	let wire = |d: &Vec<u8>, ad: &Option<Vec<u8>>| {
+		(2 + 32 + 8 + 2 + d.len() + ad.as_ref().map_or(0, |b| 1 + 3 + b.len()), vh::fail_wire_len(d.clone(), ad.clone()))
+	};
+	let (w0, h0) = wire(&d, &at_data);
+	if w0 != h0 {
+		judge.push(js("update_fail_htlc_wire_len differs from the serialized message length"));
+	}
+	stages.push(format!("{{\"len\":{},\"attr\":{},\"wire\":{}}}", d.len(), at_data.is_some(), w0));
+	let built_with_attr = at_data.is_some();
+	for j in (0..at).rev() {
+		let (d2, a2) = vh::wrap_failure_via_reason(&keys[j].shared_secret, d, at_data, holds[j]);
+		d = d2;
+		at_data = a2;
+		let (w, h) = wire(&d, &at_data);
+		if w != h {
+			judge.push(js("update_fail_htlc_wire_len differs from the serialized message length"));
+		}
+		if w > 65535 {
+			judge.push(format!("\"relay {} produced an update_fail_htlc of {} bytes\"", j, w));
+		}
+		// a relayer may drop attribution data only if keeping it would exceed the message size limit
+		let with_attr = d.len() + 2 + 42 + 924;
+		if at_data.is_none() && with_attr <= 65535 {
+			judge.push(format!("\"relay {} dropped attribution data although the message would have had {} bytes\"", j, with_attr));
+		}
+		stages.push(format!("{{\"len\":{},\"attr\":{},\"wire\":{}}}", d.len(), at_data.is_some(), w));
+	}
+	let cap = CapLog::new();
+	let dec = vh::process_failure(&secp, &cap, &path, &sess, d.clone(), at_data.clone());
+	let (_dec_json, hop, inconsistent) = decoded_json(&dec, &path, cap.blamed(&path));
+	// with attribution dropped on the way the hold-time count legitimately differs; checked below
+	if at_data.is_some() && built_with_attr {
+		judge.extend(inconsistent);
+	}
+	if dec.unattributed || dec.code != Some(code) || dec.data.as_ref() != Some(&data) || hop != Some(at) {
+		judge.push(format!("\"failure of hop {} with code {} decoded as hop {:?} code {:?}\"", at, code, hop, dec.code));
+	}
+	// whenever the failing hop's packet carries attribution data and relaying cannot push the message over the
+	// limit, the sender reads every hold time (the first 20)
+	let fits = plen + 2 + 42 + 924 <= 65535;
+	let want_holds: Vec<u32> = holds[..=at].iter().cloned().take(20).collect();
+	if built_with_attr && fits && dec.hold_times != want_holds {
+		judge.push(format!("\"hold times {:?} instead of {:?} (packet data {} bytes)\"", dec.hold_times, want_holds, plen));
+	}
+	format!(
+		"{{\"kind\":\"failb\",\"built\":true,\"stages\":{},\"decoded\":{{\"code\":{},\"hop\":{},\"hold_times\":[{}],\"unattributed\":{}}},\"judge\":{}}}",
+		jlist(&stages),
+		dec.code.map(|c| c.to_string()).unwrap_or("null".into()),
+		hop.map(|c| c.to_string()).unwrap_or("null".into()),
+		dec.hold_times.iter().map(|t| t.to_string()).collect::<Vec<_>>().join(","),
+		dec.unattributed,
+		jlist(&judge)
+	)
+}
+
 fn do_decode(a: &HashMap<String, String>) -> String {
 	let secp = Secp256k1::new();
 	let sess = SecretKey::from_slice(&arr32(&a["sess"])).unwrap();
@@ -738,6 +1238,8 @@ fn main() {
 			),
 			"pay" => do_pay(&a),
 			"raw" => do_raw(&a),
+			"rcpt" => do_rcpt(&a),
+			"failb" => do_failb(&a),
 			"peel" => do_peel(&a),
 			"keys" => do_keys(&a),
 			"fail" => do_fail(&a),
